@@ -298,7 +298,12 @@ fn toks(f: &Ast, rng: &mut Rng, style: Style, out: &mut Vec<String>) {
         Ast::CountConst(cmp, xs, n) => {
             list_toks(xs, rng, style, out);
             out.push(cmp_spelling(*cmp).into());
-            out.push(n.to_string());
+            // a constant may be written with leading zeros (also more than 20 digits of them)
+            if style == Style::Fancy && rng.chance(1, 6) {
+                out.push(format!("{}{}", "0".repeat(1 + rng.usize(28)), n));
+            } else {
+                out.push(n.to_string());
+            }
         }
         Ast::CountList(cmp, xs, ys) => {
             list_toks(xs, rng, style, out);
@@ -360,9 +365,16 @@ pub fn join_tokens(tokens: &[String], rng: &mut Rng, style: Style) -> String {
                     } else if r == 8 {
                         s.push_str(*rng.pick(&SEPARATORS));
                     } else {
-                        s.push(' ');
+                        // a comment is a token of its own: it separates its neighbours with or
+                        // without blanks around it (`not"c"a` is `not a`)
+                        let glue = rng.below(4);
+                        if glue & 1 == 0 {
+                            s.push(' ');
+                        }
                         s.push_str(*rng.pick(&COMMENTS));
-                        s.push(' ');
+                        if glue & 2 == 0 {
+                            s.push(' ');
+                        }
                     }
                 }
             }
@@ -403,10 +415,10 @@ pub const MARK_NAMES: [&str; 8] = ["cafe\u{301}", "cafe", "हिंदी", "a\
 pub const FANCY_NAMES: [&str; 12] = ["a", "b'", "_x", "x1", "hello_world", "é", "λx", "中", "X", "a1b2", "'q", "longer_name_9"];
 
 /// Every spelling of every token kind (for soups / mutations).
-pub const TOKEN_SPELLINGS: [&str; 65] = [
+pub const TOKEN_SPELLINGS: [&str; 68] = [
     "a", "b", "c", "x'", "_y", "0", "1", "2", "3", "17", "{r}", "&", "*", "and", "|", "+", "or", "^", "xor", "nor", "nand", "=>", "implies", "in", "<=", "<=>", "iff", "eq", "-",
     "!", "not", "exists", "any", "forall", "all", "if", "then", "else", "lfp", "mu", "gfp", "nu", "true", "false", "#", "=", "<", ">", ">=", "(", ")", "[", "]", ",", "\"c\"", ";", "{", "}",
-    "\"", "'", "é", "٣", "\u{301}", "a\u{203f}b", "e\u{301}",
+    "\"", "'", "é", "٣", "\u{301}", "a\u{203f}b", "e\u{301}", "00", "000000000000000000001", "0000000000000000000000000000002",
 ];
 
 /// Token-level mutation of a valid token list: the interesting negatives are one edit from a sentence.
